@@ -286,8 +286,9 @@ def suspend (w : W) (c : FdCap) : W × FdCap :=
 def resume (w : W) (c : FdCap) : W × FdCap :=
   if !(c.state == .started || c.state == .suspended) then (w.fail, c) else
   if c.state == .started then (w, c) else
+  let w := { w with os := w.os.dup2 c.pyfd c.target }      -- since 17032a6 the descriptor is redirected first
   let (w, sc) := optSys SysCap.resume w c.sysc
-  ({ w with os := w.os.dup2 c.pyfd c.target }, { c with sysc := sc, state := .started })
+  (w, { c with sysc := sc, state := .started })
 
 /-- `FDCapture.snap`: `tmpfile.seek(0); tmpfile.read(); seek(0); truncate()` -/
 def snap (w : W) (c : FdCap) : W × Data :=
